@@ -181,7 +181,7 @@ def worker(k, q, outfh, lock, test_flagged):
                 if flagged and not test_flagged:
                     res["status"] = "flagged"
                 else:
-                    trc, tout = sh("cargo test --workspace --offline 2>&1 | tail -40", cwd=wt, env=dict(os.environ, CARGO_NET_OFFLINE="true"), timeout=420)
+                    trc, tout = sh("cargo test --workspace --offline 2>&1 | tail -40", cwd=wt, env=dict(os.environ, CARGO_NET_OFFLINE="true"), timeout=1200)
                     failed = re.findall(r"^test (\S+) \.\.\. FAILED", tout, flags=re.M)
                     okc = len(re.findall(r"^test result: ok", tout, flags=re.M))
                     if trc == 124:
